@@ -97,3 +97,45 @@ package NoKV
 //@   ensures [no-ack-before-durable] badAcks == old(badAcks)
 //@   loop 1 invariant [no-ack-before-durable] db != nil && badAcks == old(badAcks)
 //@   loop 2 invariant [filling-errors] db != nil && badAcks == old(badAcks) && batch != nil && i >= 0
+
+// C04 kernel: commit versions. newCommitTs either reports a conflict without consuming a
+// timestamp, or hands out exactly the next timestamp (strictly greater than every version
+// handed out before), begins it on the commit watermark before returning and - with
+// conflict detection - records the transaction's write set under that very timestamp.
+//@ ghost var conflictChecks Int
+//@ ghost var lastConflictAnswer bool
+//@ ghost var commitMarkBegins Int
+//@ ghost var lastCommitMarkBegin uint64
+//@ func (*oracle).hasConflict
+//@   trusted
+//@   ghost conflictChecks = conflictChecks + 1
+//@   ghost lastConflictAnswer = result
+//@   modifies nothing
+// (frames: neither touches the timestamp counter; what they do to the watermarks, the
+// committed-transaction list and the intent table is not specified here)
+//@ func (*oracle).doneRead
+//@   trusted
+//@   modifies txn.doneRead
+//@ func (*oracle).cleanupCommittedTransactions
+//@   trusted
+//@   modifies o.committedTxns, o.lastCleanupTs
+//@ func cloneConflictKeys
+//@   trusted
+//@   modifies nothing
+//@ func github.com/feichai0017/NoKV/utils::(*WaterMark).Begin
+//@   trusted
+//@   ghost commitMarkBegins = commitMarkBegins + 1
+//@   ghost lastCommitMarkBegin = index
+//@   modifies nothing
+//@ func github.com/feichai0017/NoKV/utils::AssertTrue
+//@   trusted
+//@   modifies nothing
+//@ func (*oracle).newCommitTs
+//@   property C04
+//@   requires o != nil && txn != nil
+//@   ensures [conflict-consumes-no-timestamp] result1 ==> result == 0 && commitMarkBegins == old(commitMarkBegins) && lastConflictAnswer
+//@   ensures [conflict-checked-exactly-once] conflictChecks == old(conflictChecks) + 1
+//@   ensures [no-commit-over-a-conflict] !result1 ==> !lastConflictAnswer
+//@   ensures [begun-on-the-commit-mark] !result1 ==> commitMarkBegins == old(commitMarkBegins) + 1 && lastCommitMarkBegin == result
+//@   ensures [next-timestamp-strictly-increasing] !result1 ==> result == old(o.nextTxnTs.v) && o.nextTxnTs.v == result + 1
+//@   ensures [conflict-leaves-the-counter] result1 ==> o.nextTxnTs.v == old(o.nextTxnTs.v)
